@@ -4,12 +4,13 @@ set -e
 cd "$(dirname "$0")"
 export CARGO_NET_OFFLINE=true
 python3 tools/regen.py
-python3 tools/extract.py /repo lean/QuicModel/Generated >/dev/null
+python3 tools/extract.py "${VERIF_REPO:-/repo}" lean/QuicModel/Generated >/dev/null
 export CARGO_TARGET_DIR="$(pwd)/.cache/target"
 (cd lean && lake build 2>&1 | tail -3)
-for h in harness/*/; do
+ln -sfn "${VERIF_REPO:-/repo}" harness/repo
+for h in harness/vh-*/; do
   [ -f "$h/Cargo.toml" ] || continue
-  cp /repo/Cargo.lock "$h/Cargo.lock"
+  cp "${VERIF_REPO:-/repo}/Cargo.lock" "$h/Cargo.lock"
   (cd "$h" && cargo build --offline 2>&1 | tail -2)
 done
 echo setup done
